@@ -79,6 +79,20 @@ func (x *run) waitApplied(limit int, d time.Duration) bool {
 	return false
 }
 
+// appliedOrDrained: has every keyed event of the input up to limit taken effect? When that has not happened within
+// the watchdog the verdict is not taken from the clock: one more checkpoint is driven. Its barriers travel behind
+// every record that was read, so once it is published every record has reached a handler — or is lost for good
+// (decided). If that checkpoint does not complete either, nothing is decided.
+func (x *run) appliedOrDrained(limit int) (ok, decided bool) {
+	if x.waitApplied(limit, cluster.Watchdog) {
+		return true, true
+	}
+	if x.checkpoint(3*cluster.Watchdog) == nil {
+		return false, false
+	}
+	return x.waitApplied(limit, 2*time.Second), true
+}
+
 func (x *run) replaceAll() { x.replaceAllWith(nil) }
 
 // replaceAllWith kills every worker, runs between (e.g. a job restart) and starts as many fresh workers.
@@ -332,9 +346,12 @@ func fullRestart(c *lib.Ctx, force int) {
 	}
 	x.src.SetLimit(o.perSplit)
 	x.waitCaughtUp()
-	if !x.waitApplied(o.perSplit, cluster.Watchdog) {
+	if ok, decided := x.appliedOrDrained(o.perSplit); !ok {
 		x.checkHandlers()
-		x.c.Fail("record-lost", x.wit("epochs", ep.history), "after the last recovery every split was read to its end, but not every keyed event of the input took effect on state (restored from checkpoints %v)", ep.restore)
+		if !decided {
+			x.c.Inconclusive("after the last recovery every split was read to its end; not every keyed event has taken effect yet and the draining checkpoint did not complete within the bound (job errors %v; goroutines: %s)", x.cl.JobErrors(), lib.BlockedSummary())
+		}
+		x.c.Fail("record-lost", x.wit("epochs", ep.history), "after the last recovery every split was read to its end and a checkpoint taken after that was published, but not every keyed event of the input took effect on state (restored from checkpoints %v)", ep.restore)
 	}
 	// bounded progress: checkpoints complete again after the recovery (C15), which also drains
 	snap := x.checkpoint(8 * time.Second)
